@@ -520,7 +520,7 @@ def slot_paths(fi, fnode, arr, start_after=None):
                 from ..astutil import ends_in_raise
                 rest = stmts[i + 1:]
                 test = sub(st.test, env)
-                if not (ends_in_raise(st.body) and not st.orelse):
+                if not (ends_in_raise(st.body) and not st.orelse and not any(isinstance(x, ast.Return) for s_ in st.body for x in ast.walk(s_))):
                     walk(list(st.body) + rest, env, slots, conds + [(test, True)], depth + 1)
                 walk(list(st.orelse) + rest, env, slots, conds + [(test, False)], depth + 1)
                 return
